@@ -27,10 +27,11 @@ D == 1..ND
 Ch == 1..NC
 
 VARIABLES cfg,   \* [D -> [en, ex]] behaviour of each disposable, chosen in Init
+          esp,   \* the first disposable spawns task 1 into the scope at the start of its __aenter__ (chosen in Init)
           x,     \* the scope record, see InitX
           obs
 
-vars == <<cfg, x, obs>>
+vars == <<cfg, esp, x, obs>>
 
 InitX == [ph |-> "pre",          \* pre | entering | rollback | body | exiting | waiting | post
           den |-> [i \in D |-> "none"],    \* none | entering | entered | failed | cancelled
@@ -50,6 +51,7 @@ InitX == [ph |-> "pre",          \* pre | entering | rollback | body | exiting |
           out |-> "none"]        \* what left the block
 
 Init == /\ cfg \in [D -> [en : Behaviours, ex : Behaviours]]
+        /\ esp \in (IF ND >= 1 /\ NC >= 1 THEN BOOLEAN ELSE {FALSE})
         /\ x = InitX
         /\ obs = [ph |-> "pre", out |-> "none", restored |-> TRUE, body |-> <<0, 0>>,
                   d |-> [i \in D |-> <<0, 0, "unset">>], ch |-> [u \in Ch |-> "unborn"]]
@@ -100,7 +102,12 @@ Run(r) ==
                                IF Bug = "no_rollback" THEN {} ELSE Entered(r), c))
            ELSE [r EXCEPT !.ph = "body", !.started = TRUE]
     [] r.ph = "rollback" ->
-         IF Exiting(r) # {} THEN r ELSE [r EXCEPT !.ph = "post", !.out = r.cause]
+         \* a cancellation that hit the rollback itself is what leaves the block, not the enter error
+         \* ... and the task group is left with that failure: tasks a disposable spawned while entering are cancelled
+         IF Exiting(r) # {} THEN r
+         ELSE LET r2 == IF Bug = "rollback_awaits_members" THEN r ELSE AbortChildren(r) IN
+              IF Running(r2) # {} THEN r2
+              ELSE [r2 EXCEPT !.ph = "post", !.out = IF r.dC /\ Bug # "rollback_cancel_lost" THEN "C" ELSE r.cause]
     [] r.ph = "exiting" ->
          IF Exiting(r) # {} THEN r
          ELSE \* the task group is left with the failure in flight - the body's, or that of the disposables'
@@ -119,7 +126,7 @@ Project(r, restored) ==
    body |-> IF r.ph = "body" THEN <<2, IF ND >= 1 THEN (IF Bug = "completion_order_state" /\ ND >= 2 THEN 1 ELSE ND) ELSE 92>> ELSE <<0, 0>>,
    d |-> [i \in D |-> <<r.nen[i], r.nex[i], r.xarg[i]>>], ch |-> r.ch]
 
-Step(r) == /\ x' = Run(r) /\ cfg' = cfg
+Step(r) == /\ x' = Run(r) /\ cfg' = cfg /\ esp' = esp
            /\ obs' = Project(Run(r), IF Bug = "no_restore_on_failure" /\ Run(r).ph = "post" /\ Run(r).out \notin {"return", "E"}
                                        THEN FALSE ELSE TRUE)
 
@@ -130,7 +137,8 @@ Enter ==
   /\ Step([x EXCEPT !.ph = "entering",
                     !.den = [i \in D |-> CASE cfg[i].en = "ok" -> "entered" [] cfg[i].en = "fail" -> "failed"
                                             [] OTHER -> "entering"],
-                    !.nen = [i \in D |-> 1]])
+                    !.nen = [i \in D |-> 1],
+                    !.ch = [u \in Ch |-> IF esp /\ u = 1 THEN "run" ELSE "unborn"]])
 
 (* a suspended __aenter__ is released and succeeds or fails *)
 ReleaseEnter(i, how) ==
@@ -163,16 +171,16 @@ ChildFail(u) ==
        THEN Step(StartExits([r1 EXCEPT !.ph = "exiting", !.exc = "C", !.intc = TRUE], D, "C"))
        ELSE Step(r1)
 
-(* P is cancelled from outside, at any suspension point of enter / body / exit *)
+(* P is cancelled from outside, at any suspension point of enter / rollback of a failed enter / body / exit *)
 Cancel ==
-  /\ ~x.cancelled /\ x.ph \in {"entering", "body", "exiting", "waiting"}
+  /\ ~x.cancelled /\ x.ph \in {"entering", "rollback", "body", "exiting", "waiting"}
   /\ LET r0 == [x EXCEPT !.cancelled = TRUE, !.early = {u \in Ch : x.ch[u] \in {"done", "failed", "cancelled"}}] IN
      CASE x.ph = "entering" ->
             Step([r0 EXCEPT !.cause = "C",
                             !.den = [i \in D |-> IF x.den[i] = "entering" THEN "cancelled" ELSE x.den[i]]])
        [] x.ph = "body" ->
             Step(StartExits([r0 EXCEPT !.ph = "exiting", !.exc = "C"], D, "C"))
-       [] x.ph = "exiting" ->
+       [] x.ph \in {"exiting", "rollback"} ->
             Step([r0 EXCEPT !.dC = TRUE,
                             !.dex = [i \in D |-> IF x.dex[i] = "exiting" THEN "cancelled" ELSE x.dex[i]]])
        [] OTHER ->   \* waiting for spawned tasks: they are aborted; if the group was already aborting
@@ -217,6 +225,8 @@ CancelNotLost ==
 (* C07 / C06: ... and the tasks spawned into the scope are cancelled too, not awaited *)
 CancelAbortsMembers ==
   (x.ph = "post" /\ x.cancelled /\ ~x.lostC) => \A u \in Ch : x.ch[u] = "done" => u \in x.early
+(* C06: a failed or cancelled enter leaves nothing behind either: tasks spawned while entering are cancelled *)
+RollbackAbortsMembers == x.ph = "rollback" => Exiting(x) # {}
 (* C06: when cleanup itself fails the remaining spawned tasks are cancelled rather than awaited *)
 NoWaitAfterFailure == x.ph = "waiting" => (x.exc = "return" /\ ~x.dC /\ XFailed(x) = {})
 (* C08 / C01: state yielded by the disposables is visible in the body, later declared ones winning *)
